@@ -68,9 +68,15 @@ def fixed_trees():
     nested = [d("ro/", 0o040555), f("ro/", "inside", 0o100400), d("ro/deep/", 0o040500, T1), f("ro/deep/", "leaf", 0o100644, T2, blob=["pm2", 1200, 5]), f("", "top", blob=["lh1", 900, 6])]
     links = [d("dir/"), f("dir/", "real"), {"k": "l", "path": "dir/", "name": "safe", "target": "real", "mtime": T1}, {"k": "l", "path": "", "name": "dang", "target": "../out", "mtime": T1},
              {"k": "l", "path": "dir/", "name": "abs", "target": "/etc/passwd", "mtime": T1}, f("", "last", 0o100640)]
+    # relative targets with '.' and empty components are ordinary (safe) targets: created at once, before the directory's metadata
+    dotlinks = [d("proj/", 0o040755), f("proj/", "real"),
+                {"k": "l", "path": "proj/", "name": "cur", "target": "./real", "mtime": T1}, {"k": "l", "path": "proj/", "name": "viadot", "target": "sub/./data", "mtime": T1},
+                {"k": "l", "path": "proj/", "name": "dots", "target": "...", "mtime": T1},
+                d("proj/sub/", 0o040750, T1), f("proj/sub/", "data"), {"k": "l", "path": "proj/sub/", "name": "dbl", "target": ".//data", "mtime": T1},
+                {"k": "l", "path": "", "name": "top", "target": "proj/./sub//data", "mtime": T1}, f("", "last")]
     mac = [f("", "Mac File", mac="data", level=2), f("", "Icon", mac="res", level=2), f("", "plain", mac="", level=2), f("", "lvl1", level=1), f("", "LEVEL0", level=0),
            f("", "nounix", level=1, unix=False)]
-    return {"flat": flat, "nested": nested, "links": links, "mac": mac}
+    return {"flat": flat, "nested": nested, "links": links, "mac": mac, "dotlinks": dotlinks}
 
 
 def option_cases(thorough):
@@ -178,6 +184,13 @@ def glob_cases(thorough):
         yield {"entries": ents, "cmd": "pq2", "filters": pats}
         free = [e for e in ents if (e["path"] + e["name"]) in ("b", "ab", "bb", "a/a", "a/b", "a/ab", "ba/b", "ba/a/b", "aa/b")]
         yield {"entries": free, "cmd": "xf", "filters": pats}
+    # wildcard arguments select directory entries too (their stored path is matched): a selected directory is created with its
+    # recorded mode and time, an unselected one only as far as its selected contents need it
+    trees = fixed_trees()
+    for tname in ("nested", "links", "dotlinks"):
+        for pats in (["*"], ["ro/*"], ["ro/"], ["ro/deep/"], ["dir/"], ["dir/*"], ["proj/*"], ["proj/"], ["proj/sub/"], ["*/"], ["*/*/"], ["top"], ["*a*"], ["ro/", "ro/inside"], ["proj/", "proj/cur"]):
+            for cmd in ("xf", "xq"):
+                yield {"entries": trees[tname], "cmd": cmd, "filters": pats, "uid": cli.NOBODY}
 
 
 def print_cases(thorough):
